@@ -1,6 +1,7 @@
 package props
 
 import (
+	"fmt"
 	"math/rand"
 	"strings"
 	"sync/atomic"
@@ -42,12 +43,24 @@ var c19Seeds = []string{
 	"##!> assemble\n##!> include marks -- @ \"\" ~ \"\"\n##!=>\nb\n##!<\n", "##!=> \x0b\n", "##!=< \x0b\n", "a\n##!=< \u00a0\n##!=> \u00a0\n", "##!=> \u0085 \n", "##!> assemble\n  a\n  ##!=< \x0b \x0b\n  ##!=> \u2003\n##!<\n", "##!=>\t\x0c\n", "##!=< \x1c\n##!=> \x1c\n",
 	// a bare marker prefix that comes into being after the parser has looked at the lines
 	"##!> define marker ##!\n{{marker}}\nfoo\n", "##!> define m ##!>\n{{m}}\n", "##!> define m ##!<\nfoo\n{{m}}\n", "##!> define m ##!=>\na\n{{m}}\nb\n", "##!^ ##!\nfoo\n", "##!$ ##!\nfoo\nbar\n", "##!> include hashbang\n", "##!> define m ##\n{{m}}!\n",
+	// several exclude files read with the many definitions of one include file
+	"##!> include-except manydefs b a name ok\n", "##!> include-except manydefs b a\n##!> include-except manydefs name ok b\n", "##!> include manydefs\n##!> include-except manydefs a b name\n",
 	// include cycles with a fan-out of two and more
 	"##!> include fz\n##!> include fz\n", "##!> include twice\n", "##!> include ping\n##!> include pong\n##!> include-except ping pong\n", "x\n##!> include fz -- a b\n##!> include-except fz ok\n##!> include fz\n",
 	// fragments of a byte order mark at the start of the input
 	"\xef\xbb\n", "\xef\xbb", "\xef\n", "\xef\xbb\xbf", "\xef\xbb\r\nfoo\n", "\xef\xbb\xbf\n\xef\xbb\n", "\xfe\xff", "\xff\xfe\n",
 	"##!> define a {{a}}\n{{a}}\n", "##!> define a {{b}}\n##!> define b {{a}}\n{{a}}{{b}}\n", "##!^ (\n##!$ )\nx\n", "##!^ [\n##!$ ]\nx\n", "(?i)a\n(?s).\n", "a|b|\n|\n", "()\n(|)\n", "[]]\n[^]]\n", "\\\n", "x{2}{3}\n", "a**\n",
 }
+
+// an include file with 250 definitions (several exclude files are read with them)
+var c19ManyDefs = func() string {
+	var sb strings.Builder
+	for i := 0; i < 250; i++ {
+		fmt.Fprintf(&sb, "##!> define md%03d v%d{{md%03d}}\n", i, i, (i+1)%250)
+	}
+	sb.WriteString("one{{md001}}\ntwo\nthree\n")
+	return strings.Replace(sb.String(), "{{md000}}", "", 1)
+}()
 
 // directory trees that are not shaped like a CRS checkout (the -d argument points into them)
 var c19Shapes = []string{"assembly-dir-is-file-below-root", "assembly-dir-is-file", "assembly-dir-is-file-deeper", "assembly-dir-is-dangling-link", "assembly-dir-links-to-itself", "include-dir-is-file", "include-file-is-dir",
@@ -87,16 +100,17 @@ func c19Check(env *core.Env, cc core.Case) core.Verdict {
 	defer rmCase(root)
 	v := core.Verdict{Status: core.Held, Nontrivial: true, Features: []string{"via:" + c.Via}, Counts: map[string]int{}}
 	tree := sut.Tree{
-		"regex-assembly/toolchain.yaml":   crsToolchainYAML,
-		"regex-assembly/include/ok.ra":    "fine\n",
-		"regex-assembly/include/a.ra":     "fromfilea\n",
-		"regex-assembly/include/name.ra":  "fromfilename\n",
-		"regex-assembly/exclude/b.ra":     "fromfileb\n",
-		"regex-assembly/include/ping.ra":  "pingword\n##!> include pong\n",
-		"regex-assembly/include/pong.ra":  "##!> include ping\npongword\n",
-		"regex-assembly/include/twice.ra": "##!> include twice\n##!> include twice\nw\n",
-		"regex-assembly/include/marks.ra": "@\n~\nls@\nid~\n~@\n",
+		"regex-assembly/toolchain.yaml":      crsToolchainYAML,
+		"regex-assembly/include/ok.ra":       "fine\n",
+		"regex-assembly/include/a.ra":        "fromfilea\n",
+		"regex-assembly/include/name.ra":     "fromfilename\n",
+		"regex-assembly/exclude/b.ra":        "fromfileb\n",
+		"regex-assembly/include/ping.ra":     "pingword\n##!> include pong\n",
+		"regex-assembly/include/pong.ra":     "##!> include ping\npongword\n",
+		"regex-assembly/include/twice.ra":    "##!> include twice\n##!> include twice\nw\n",
+		"regex-assembly/include/marks.ra":    "@\n~\nls@\nid~\n~@\n",
 		"regex-assembly/include/hashbang.ra": "##!^ ##!\n##!$ ##!\nword\n",
+		"regex-assembly/include/manydefs.ra": c19ManyDefs,
 	}
 	type inv struct {
 		args  []string
